@@ -268,6 +268,15 @@ def JL.nums : JL → List (Option Int)
   | .cons _ r => none :: JL.nums r
 def Dec.isNums (ns : List Int) : Dec → Bool | .val (.arr xs) => xs.nums == ns.map some | _ => false
 
+/-- A header key that is present without any value is found and yields no value — except under an object schema,
+where the decoder's nil map reaches the validator as an empty object. -/
+theorem decodeHdrVal_no_value (s : Sch) (ex : Bool) (c : Dec) :
+    (s.core.ty = .object → ∃ kvs, decodeHdrVal s ex none c = .val (.obj kvs) ∧ ∀ k, kvs.get k = none) ∧
+    (s.core.ty ≠ .object → (decodeHdrVal s ex none c).isNil = true) := by
+  constructor
+  · intro h; exact ⟨.nil, by simp [decodeHdrVal, h], fun _ => rfl⟩
+  · intro h; unfold decodeHdrVal; cases ht : s.core.ty <;> simp_all [Dec.isNil]
+
 /-- strconv.ParseInt base 10 / 64 bit and strconv.ParseBool on the texts the differential run also replays -/
 example : ([("5", 5), ("+5", 5), ("-0", 0), ("007", 7), ("-3", -3), ("9223372036854775807", 9223372036854775807),
     ("-9223372036854775808", -9223372036854775808)].all
@@ -517,7 +526,7 @@ theorem excludeBody_headers_decide (canon : String → String) (reg : List (Stri
   cases firstErr (checkHeader canon o.woOff i.hdrs) (checkedHeaders r) <;> simp [checkBody, hb]
 
 /-- The header error reported is the one of a declared header other than Content-Type. -/
-theorem header_error_names_declared (canon : String → String) (w : Bool) (hdrs : List (String × String))
+theorem header_error_names_declared (canon : String → String) (w : Bool) (hdrs : List (String × Option String))
     (r : Resp) (e : Err) (h : firstErr (checkHeader canon w hdrs) (checkedHeaders r) = some e) :
     ∃ x, x ∈ r.headers ∧ x.name ≠ "Content-Type" ∧ checkHeader canon w hdrs x = some e := by
   have : ∀ l : List Hdr, firstErr (checkHeader canon w hdrs) l = some e → ∃ x, x ∈ l ∧ checkHeader canon w hdrs x = some e := by
@@ -535,7 +544,7 @@ theorem header_error_names_declared (canon : String → String) (w : Bool) (hdrs
 
 /-- **Order of the header loop.** The header error reported is the one of the failing declared header with the
 least name (`sort.Strings`): every declared header that fails has a name at least as large. -/
-theorem header_error_is_least_failing (canon : String → String) (w : Bool) (hdrs : List (String × String))
+theorem header_error_is_least_failing (canon : String → String) (w : Bool) (hdrs : List (String × Option String))
     (r : Resp) (e : Err) (h : firstErr (checkHeader canon w hdrs) (checkedHeaders r) = some e) :
     ∃ x, x ∈ r.headers ∧ x.name ≠ "Content-Type" ∧ checkHeader canon w hdrs x = some e ∧
       ∀ y, y ∈ r.headers → y.name ≠ "Content-Type" → checkHeader canon w hdrs y ≠ none → x.name ≤ y.name := by
@@ -556,7 +565,7 @@ theorem header_error_is_least_failing (canon : String → String) (w : Bool) (hd
       exact (List.pairwise_cons.mp this).1 y hpost
 
 /-- A header described by `content` is only checked for presence (finding #22, fixed). -/
-theorem header_by_content_presence_only (canon : String → String) (w : Bool) (hdrs : List (String × String))
+theorem header_by_content_presence_only (canon : String → String) (w : Bool) (hdrs : List (String × Option String))
     (h : Hdr) (hs : h.schema = none) :
     checkHeader canon w hdrs h = none ↔ (present canon hdrs h = true ∨ h.required = false) := by
   unfold checkHeader
@@ -646,7 +655,7 @@ theorem genReg_text_decoders :
 /-! ### Witnesses of the exclusion classes (model ≠ spec on a concrete input inside the class) -/
 
 def strHdr (s : Sch) : Hdr := { name := "X-A", required := false, schema := some s, explode := false }
-def inp (resps : List (String × Resp)) (hdrs : List (String × String)) (d : Dec) : Input :=
+def inp (resps : List (String × Resp)) (hdrs : List (String × Option String)) (d : Dec) : Input :=
   { method := "GET", status := 200, responses := resps, hdrs := hdrs, body := "", readFails := false, bodyDec := d }
 
 /-- `X-A: abc` against the header schema `{}`: rejected ("Value is not nullable") although every value satisfies `{}`. -/
@@ -713,7 +722,7 @@ def exResp : Resp :=
 
 def exIn (status : Int) (body : J) : Input :=
   { method := "GET", status := status, responses := [("2XX", exResp), ("default", ⟨[], [], true⟩)],
-    hdrs := [("X-B", "5"), ("Content-Type", "application/json; charset=utf-8")], body := "…", readFails := false,
+    hdrs := [("X-B", some "5"), ("Content-Type", some "application/json; charset=utf-8")], body := "…", readFails := false,
     bodyDec := .val body }
 
 example : Excluded id {} (exIn 201 (.obj (.cons "id" (.num 1) .nil))) = false := by decide
